@@ -480,6 +480,7 @@ type c10Get struct {
 }
 
 type c10PartyResult struct {
+	outs   [][]*big.Int // results of the runs of a sequence
 	out    []*big.Int
 	gets   []c10Get
 	err    error
@@ -499,6 +500,13 @@ type c10Plan struct {
 	// waitFill: after Connect wait until the offline phase has filled the
 	// pool and the generator has parked (Pool.NumTriples stops growing)
 	waitFill bool
+	// seq: several Run calls on the one connected network (network reuse)
+	seq []c10SeqRun
+}
+
+type c10SeqRun struct {
+	circ   *circuit.Circuit
+	inputs []*big.Int
 }
 
 // c10WaitFilled polls Pool.NumTriples (an unsynchronised statistics counter)
@@ -592,6 +600,19 @@ func c10RunNetwork(p *c10Plan) (res []c10PartyResult, stalled bool, retry bool) 
 			}
 			arrive()
 			barrier.Wait()
+		} else if len(p.seq) > 0 {
+			for k, sr := range p.seq {
+				r.step = fmt.Sprintf("run%d", k)
+				o, err := nw.Run(sr.inputs[id], sr.circ, false)
+				if err != nil {
+					r.err = err
+					return
+				}
+				r.outs = append(r.outs, o)
+				if (k+id)%2 == 0 {
+					c10Sleep(p.delays[id][2] / 2)
+				}
+			}
 		} else {
 			r.step = "run"
 			r.out, err = nw.Run(p.inputs[id], p.circ, false)
@@ -1110,6 +1131,9 @@ func runC10(c *Ctx) error {
 	if err := c10Chains(c, timeout); err != nil {
 		return err
 	}
+	if err := c10Reuse(c, timeout); err != nil {
+		return err
+	}
 	return c10Wide(c, timeout)
 }
 
@@ -1395,5 +1419,234 @@ func c10Wide(c *Ctx, timeout time.Duration) error {
 	filledWords := int(res[0].filled / 64)
 	c.Case(L(I(2), I(needWords)), L(I(filledWords), I(1), I(done)))
 	c.Note("wide level: %d ANDs = %d words; pool filled to %d triples before Run", ands, needWords, res[0].filled)
+	return nil
+}
+
+// ---------------------------------------------------------------- network reuse
+
+type c10ReuseReplay struct {
+	Seed     uint64     `json:"seed"`
+	Sequence int        `json:"sequence"`
+	Parties  int        `json:"parties"`
+	Run      int        `json:"failing_run"`
+	Runs     []string   `json:"runs"` // kind, wires, outputs of every run of the sequence
+	Inputs   [][]string `json:"inputs"`
+	Got      []string   `json:"got,omitempty"`
+	Want     string     `json:"want,omitempty"`
+	Detail   string     `json:"detail,omitempty"`
+}
+
+// c10ReuseCircuit: size 0 = small (a few gates), 1 = medium, 2 = big.
+// multiOut splits the output bits into several output arguments.
+func c10ReuseCircuit(r *RNG, n, size int, multiOut bool) *c10Circ {
+	var cc *c10Circ
+	switch size {
+	case 0:
+		cc = c10Raw(r, n, true)
+	case 1:
+		cc = c10Levelled(r, n, []int{r.Range(1, 70), r.Range(1, 70)}, false)
+	default:
+		if r.Bool() {
+			cc = c10Raw(r, n, false)
+		} else {
+			cc = c10Levelled(r, n, c10RandomLevelSizes(r), false)
+		}
+	}
+	no := cc.circ.Outputs.Size()
+	if multiOut && no >= 2 {
+		k := r.Range(2, minInt(4, no))
+		cc.circ.Outputs = c10IO("r", c10Partition(r, no, k))
+		cc.kind += "+multi-out"
+	}
+	return cc
+}
+
+// c10Reuse: sequences of 3..5 Network.Run calls on ONE connected network.
+func c10Reuse(c *Ctx, timeout time.Duration) error {
+	patterns := [][]int{{2, 0, 2}, {0, 2, 0}, {1, 1, 1}, {2, 1, 0, 0}, {0, 1, 2, 0, 2}, {2, 0, 0, 2}}
+	nseq := c.N(4, 16)
+	for si := 0; si < nseq; si++ {
+		r := c.rng.Fork()
+		n := 2 + si%2
+		pat := patterns[(si+int(c.Seed))%len(patterns)]
+		var runs []c10SeqRun
+		var kinds []string
+		var wants [][]bool
+		var inStrs [][]string
+		var jobs []SX
+		wordsNeeded := 0
+		var same *c10Circ
+		for k, size := range pat {
+			// the small circuits mostly have ONE output argument; "equal": the same circuit again
+			multi := r.Intn(3) == 0
+			if size == 0 {
+				multi = r.Intn(5) == 0
+			}
+			var cc *c10Circ
+			if size == 1 && same != nil {
+				cc = same
+			} else {
+				cc = c10ReuseCircuit(r, n, size, multi)
+				cc.circ.AssignLevels(utils.TargetGMW)
+				if size == 1 {
+					same = cc
+				}
+			}
+			circ := cc.circ
+			sizes := make([]int, n)
+			inputs := make([]*big.Int, n)
+			insx := make([]SX, n)
+			strs := make([]string, n)
+			for p := 0; p < n; p++ {
+				sizes[p] = int(circ.Inputs[p].Type.Bits)
+				v := new(big.Int)
+				for b := 0; b < sizes[p]; b++ {
+					if r.Intn(4) != 0 { // mostly ones: stale wires are visible
+						v.SetBit(v, b, 1)
+					}
+				}
+				inputs[p] = v
+				insx[p] = Bits(c10BitsOf(v, sizes[p]))
+				strs[p] = v.Text(16)
+			}
+			want, err := circ.Compute(inputs)
+			if err != nil {
+				return fmt.Errorf("reuse: Compute: %v", err)
+			}
+			wants = append(wants, JoinOutputs(circ, want))
+			runs = append(runs, c10SeqRun{circ: circ, inputs: inputs})
+			kinds = append(kinds, fmt.Sprintf("run%d: %s wires=%d gates=%d outputs=%v", k, cc.kind, circ.NumWires, len(circ.Gates), circ.Outputs))
+			inStrs = append(inStrs, strs)
+			dims, gs := CircuitSX(circ)
+			jobs = append(jobs, L(dims, gs, Ints(sizes), L(insx...), c10RndSX(r, sizes)))
+			andsPer := map[int]int{}
+			for _, g := range circ.Gates {
+				if g.Op == circuit.AND {
+					andsPer[int(g.Level)]++
+				}
+			}
+			for _, cnt := range andsPer {
+				wordsNeeded += (cnt + 63) / 64
+			}
+		}
+		var res []c10PartyResult
+		var stalled bool
+		for attempt := 0; attempt < 4; attempt++ {
+			d := make([][]int, n)
+			for p := range d {
+				d[p] = []int{0, r.Intn(10), r.Intn(20), r.Intn(10)}
+			}
+			order := []int{1}
+			if n == 3 {
+				order = []int{2, 1}
+			}
+			var retry bool
+			res, stalled, retry = c10RunNetwork(&c10Plan{n: n, circ: runs[0].circ, inputs: runs[0].inputs, delays: d, order: order, timeout: timeout, seq: runs})
+			if !retry {
+				break
+			}
+			c.Hist("harness:port-retry")
+		}
+		c.Eval(fmt.Sprintf("reuse|%d|%d|%s|%v", n, si, strings.Join(kinds, ";"), inStrs), true)
+		c.Hist(fmt.Sprintf("kind:network-reuse(%d runs)", len(pat)))
+		replay := c10ReuseReplay{Seed: c.Seed, Sequence: si, Parties: n, Run: -1, Runs: kinds, Inputs: inStrs}
+		if stalled {
+			var steps []string
+			for p := range res {
+				steps = append(steps, fmt.Sprintf("%d:%s", p, res[p].step))
+			}
+			replay.Detail = "did not finish within " + timeout.String() + "; parties at " + strings.Join(steps, " ")
+			c.Fail("c10:network-reuse:stalled", "GMW network stalled in a sequence of runs", replay)
+			continue
+		}
+		ok := true
+		for p := range res {
+			if res[p].err != nil {
+				ok = false
+				rp := replay
+				rp.Detail = fmt.Sprintf("party %d failed at %s: %v", p, res[p].step, res[p].err)
+				c.Fail(fmt.Sprintf("c10:network-reuse:%s:error", res[p].step), "GMW party returned an error", rp)
+			}
+		}
+		if !ok {
+			continue
+		}
+		outsx := make([]SX, len(runs))
+		plainsx := make([]SX, len(runs))
+		for k := range runs {
+			per := make([]SX, n)
+			var gotStr []string
+			bad := false
+			for p := 0; p < n; p++ {
+				// compare the returned VALUES (a result with bits above its
+				// argument's width is wrong even if the low bits agree)
+				vals := res[p].outs[k]
+				for ai, a := range runs[k].circ.Outputs {
+					if ai >= len(vals) || vals[ai].BitLen() > int(a.Type.Bits) {
+						bad = true
+					}
+				}
+				if len(vals) != len(runs[k].circ.Outputs) {
+					bad = true
+				}
+				var vs []string
+				for _, v := range vals {
+					vs = append(vs, v.Text(16))
+				}
+				got := make([]bool, 0, len(wants[k]))
+				if len(vals) == len(runs[k].circ.Outputs) {
+					got = JoinOutputs(runs[k].circ, vals)
+				}
+				if bitsString(got) != bitsString(wants[k]) {
+					bad = true
+				}
+				gotStr = append(gotStr, strings.Join(vs, ","))
+				per[p] = Bits(got)
+			}
+			outsx[k] = L(per...)
+			plainsx[k] = Bits(wants[k])
+			if bad {
+				ok = false
+				rp := replay
+				rp.Run = k
+				rp.Got = gotStr
+				wv := []string{}
+				wvals, _ := runs[k].circ.Compute(runs[k].inputs)
+				for _, v := range wvals {
+					wv = append(wv, v.Text(16))
+				}
+				rp.Want = strings.Join(wv, ",")
+				rp.Detail = "result values (hex, one per output argument) of every party vs Circuit.Compute"
+				c.Fail(fmt.Sprintf("c10:network-reuse:run%d:wrong-output", k), "a party's result of a later Run on the same network differs from Circuit.Compute", rp)
+				break
+			}
+		}
+		if !ok {
+			continue
+		}
+		// model case, mode 4
+		var batches []SX
+		have := 0
+		for have < wordsNeeded+r.Intn(3) || len(batches) == 0 {
+			w := r.Range(1, 9)
+			a := make([]SX, n)
+			b := make([]SX, n)
+			sbs := make([]SX, n)
+			dls := make([]SX, n)
+			for p := 0; p < n; p++ {
+				a[p] = c10Words(c10RandWords(r, w))
+				b[p] = c10Words(c10RandWords(r, w))
+				row := make([]SX, n)
+				for q := 0; q < n; q++ {
+					row[q] = c10Words(c10RandWords(r, w))
+				}
+				sbs[p] = L(row...)
+				dls[p] = Bits(c10RandBits(r, n))
+			}
+			batches = append(batches, L(I(w), L(a...), L(b...), L(sbs...), L(dls...)))
+			have += w
+		}
+		c.Case(L(I(4), I(n), L(jobs...), L(batches...), c10PoolsSX(r, n, len(batches))), L(L(outsx...), L(plainsx...)))
+	}
 	return nil
 }
